@@ -2,6 +2,7 @@ package props
 
 import (
 	"fmt"
+	"sync"
 
 	"github.com/orda-io/orda/client/pkg/model"
 	"vh/bed"
@@ -14,7 +15,7 @@ func init() {
 		ID:      "C05",
 		Level:   "exploration",
 		Workers: 16,
-		Rule: "seeded scenarios over the real service (direct mode): 1-6 MANUALLY clients, 1-3 datatypes out of a pool of keys and types, entry modes create / subscribe / subscribe-or-create, steps {open a datatype (late join), local operation, Sync of one client with all its datatypes in one message}; monitors: checkpoint monotonicity after every ApplyPushPullPack, store invariants (C06) after every request, at the end every client syncs to quiescence, then all subscribed clients of a key must equal each other, snapshot.Manager.GetLatestDatatype() and a replay of the stored log; the remote-operation handlers' records give exactly-once / log order / never-own; " +
+		Rule: "seeded scenarios over the real service (direct mode): 1-6 MANUALLY clients, 1-3 datatypes out of a pool of keys and types, entry modes create / subscribe / subscribe-or-create, steps {open a datatype (late join), local operation, Sync of one client with all its datatypes in one message}; monitors: checkpoint monotonicity after every ApplyPushPullPack, store invariants (C06) after every request, at the end every client syncs to quiescence, then all subscribed clients of a key must equal each other, snapshot.Manager.GetLatestDatatype() and a replay of the stored log; the remote-operation handlers' records give exactly-once / log order / never-own; every fourth scenario runs through the SDK's own Client.Sync() over real grpc with several datatypes per message and shuffled response packs, every second of those with responses lost on the way back (the request was served, Sync() returns an RPC error); " +
 			"non-trivial = at least two clients pushed to the same datatype between two syncs of a third client; distinct = hash of the step script",
 		Assumptions: []string{
 			"MongoDB and the MQTT broker are the in-memory stand-ins (fakemongo, fakemqtt): faithful for the command subset orda issues",
@@ -186,9 +187,32 @@ func runC05(c *core.Case) *core.Result {
 	defer w.close()
 	s.afterReq = func() (string, string) { return w.b.CheckLog(w.ledger, "") }
 	steps := tierN(c.Tier, 40, 80)
+	if sdk && c.Index%8 == 7 {
+		// every second SDK scenario loses responses on their way back (the request was served,
+		// Client.Sync() returns an RPC error): the SDK must stay usable and retry correctly
+		if front, err := w.b.Front(); err == nil {
+			lossRng := newRand(c.Rng.Int63())
+			var lmu sync.Mutex
+			front.SetFaults(func(req *model.PushPullMessage) bool {
+				lmu.Lock()
+				defer lmu.Unlock()
+				if lossRng.Intn(7) == 0 {
+					c.Count("sdk_responses_lost", 1)
+					return true
+				}
+				return false
+			}, nil)
+			defer front.SetFaults(nil, nil)
+		}
+	}
 	for i := 0; i < steps; i++ {
 		if sig, msg := s.step(); sig != "" {
 			return verdict(c, "", sig, msg)
+		}
+	}
+	if sdk {
+		if front, err := w.b.Front(); err == nil {
+			front.SetFaults(nil, nil)
 		}
 	}
 	// make sure every planned creator exists so that subscribers can complete
